@@ -329,7 +329,38 @@ def _cand_string_flavour():
         return dx.from_pandas(f, npartitions=2), dx.from_pandas(g, npartitions=2), None
 
 
+def _from_graph(scale):
+    import pandas as pd
+    import dask_expr as dx
+
+    meta = pd.DataFrame({"a": pd.Series([], dtype="int64")})
+    layer = {("snap", i): pd.DataFrame({"a": [scale * (2 * i + 1), scale * (2 * i + 2)]}) for i in range(2)}
+    return dx.from_graph(layer, meta, (None, None, None), [("snap", 0), ("snap", 1)], "snap")
+
+
+def _cand_from_graph_values():
+    # two imported graphs with the same keys, schema and divisions but different partition data (two persists of a
+    # source that was rewritten in place look like this)
+    return _from_graph(1), _from_graph(10), None
+
+
+def _persisted_after_rewrite(value):
+    import pandas as pd
+    import dask_expr as dx
+
+    box = {"v": value}
+    src = dx.from_map(lambda i: pd.DataFrame({"a": [box["v"] + i]}), [0, 1], meta=pd.DataFrame({"a": pd.Series([], dtype="int64")}),
+                      enforce_metadata=False)
+    return (src + 0).persist()
+
+
+def _cand_persist_rewritten():
+    return _persisted_after_rewrite(1), _persisted_after_rewrite(100), None
+
+
 CANDIDATES = {
+    "FromGraph:layer-values": _cand_from_graph_values,
+    "FromGraph:persist-after-rewrite": _cand_persist_rewritten,
     "prefix:operation/RenameSeries~MemoryUsagePerPartition": _cand_operation_rename_memusage,
     "prefix:operation/RenameFrame~ColumnsSetter": _cand_operation_rename_columns,
     "literal-equals-name": _cand_literal_name,
@@ -386,6 +417,10 @@ def _rebuild_second(site):
         tot = dx.from_pandas(pd.DataFrame({"a": [1, 2, 3, 4]}), npartitions=2).a.sum()
         df = dx.from_pandas(pd.DataFrame({"b": [tot.expr._name, "y", "z", "w"]}), npartitions=2)
         return None, df.b == tot
+    if site == "FromGraph:layer-values":
+        return None, _from_graph(10)
+    if site == "FromGraph:persist-after-rewrite":
+        return None, _persisted_after_rewrite(100)
     if site == "tokenize:DataFrame.attrs":
         return None, dx.from_pandas(pd.DataFrame({"a": [1.0, 2.0, 3.0, 4.0]}), npartitions=2)
     if site == "tokenize:StringDtype.na_value":
